@@ -155,6 +155,10 @@ type Ref struct {
 	// out of a resolver): the harness fills such fields one level deep only
 	structFilled map[string]bool
 	fillMode     bool
+	// ident: response path of a struct-filled object -> the path the harness built it
+	// under (parent's identity + FIELD NAME: a struct field cannot know the alias it is
+	// selected under); leaf values derive from the identity path
+	ident map[string]string
 	// curField: "Type.field" of the resolver whose result is being completed
 	curField string
 	// DeferIgnored: @defer treated as plain (the undeferred reference run)
@@ -173,6 +177,7 @@ func elemPath(p string, i int) string { return p + "[" + strconv.Itoa(i) + "]" }
 func (r *Ref) Execute() *Val {
 	r.errAt = map[string]bool{}
 	r.structFilled = map[string]bool{}
+	r.ident = map[string]string{}
 	var rootName string
 	switch r.Op.Operation {
 	case ast.Query:
@@ -549,6 +554,13 @@ func (r *Ref) field(obj *ast.Definition, objPath, path string, fd *ast.FieldDefi
 	return v
 }
 
+func (r *Ref) identOf(objPath string) string {
+	if id, ok := r.ident[objPath]; ok {
+		return id
+	}
+	return objPath
+}
+
 func namedTypeOf(t *ast.Type) string {
 	for t.Elem != nil {
 		t = t.Elem
@@ -633,7 +645,12 @@ func (r *Ref) complete(t *ast.Type, objPath, path, fieldName, outcome string, fi
 		return out, false
 	}
 	if r.isLeaf(t.NamedType) {
-		return &Val{Kind: 's', Raw: LeafJSON(t.NamedType, parentOf(path), fieldName, path)}, false
+		base := parentOf(path)
+		if r.curField == "" {
+			// a struct field: its value was fixed when the harness built the object
+			base = r.identOf(base)
+		}
+		return &Val{Kind: 's', Raw: LeafJSON(t.NamedType, base, fieldName, path)}, false
 	}
 	// object / abstract
 	concrete := t.NamedType
@@ -649,6 +666,7 @@ func (r *Ref) complete(t *ast.Type, objPath, path, fieldName, outcome string, fi
 	}
 	if r.fillMode {
 		r.structFilled[path] = true
+		r.ident[path] = joinPath(r.identOf(objPath), fieldName) + path[len(listPathOf(path)):]
 	}
 	v, ok := r.selectionSet(r.Schema.Types[concrete], path, sub)
 	return v, !ok
